@@ -528,7 +528,7 @@ def step (st : State) (w : List String) : State × String :=
       | none => (st, "bad-op")
       | some _ =>
         -- the forwarder hands the upstream's response up as it came: its OPT, its declared scope
-        let up := auth
+        let up := forwarderHandUp auth
         let (st', out) := qCore st "udp" client 0 false copts? 300 up (st.l3n + 1) .success none
         ((if out.startsWith "up=hit" then st' else { st' with l3n := st.l3n + 1 }), out)
     | _, _ => (st, "bad-op")
